@@ -230,7 +230,8 @@ def check(prog, rep, tier):
         seen = True
         z = [c for c in p.conds if c.atom[0] == "cmp" and c.atom[1] in ("==", "!=") and c.atom[3] == C(0) and
              (any(n[0] == "f" and n[2] == BINF for n in walk(c.atom[2]))
-              or (strip_epochs(c.atom[2])[0] == "ret" and strip_epochs(c.atom[2])[1].endswith("CountingCuckooBin.decrement")))]  # decrement() returns the new count
+              or (strip_epochs(c.atom[2])[0] == "ret" and strip_epochs(c.atom[2])[1].endswith("CountingCuckooBin.decrement"))
+              or (strip_epochs(c.atom[2])[0] == "call" and strip_epochs(c.atom[2])[1][0] == "m" and strip_epochs(c.atom[2])[1][2] == "decrement"))]  # decrement() returns the new count
         rem = bin_drops(p, dec[0])
         if not z:
             rep.bad("C15.no-zero-bin", f"{ctx}.remove", "no zero test after decrement", "after decrementing a bin its count is not tested against zero", rm.where())
